@@ -5,7 +5,7 @@ from . import parts
 
 def run(tier):
     ck = common.Check('C03', tier)
-    res = parts.run_parts(ck, tier, ir_parts=('ir_lifetime', 'ir_size', 'ir_laws'),
+    res = parts.run_parts(ck, tier, ir_parts=('ir_lifetime', 'ir_size', 'ir_laws', 'ir_ctor'),
                           rule_filter=lambda part, x: part != 'ir_laws' or x.rule in ('R03.7', 'R03.8'))
     led = sum(x['res']['ledgered'] for x in res.get('ir_laws', []))
     ck.floor('normal-return paths with an exact lifetime ledger', led, 1500 if tier == 'quick' else 10000)
